@@ -44,7 +44,7 @@ fn tails(alpha: &[Pkt]) -> Vec<(String, Vec<u8>)> {
 
 pub fn run(tier: Tier) -> i32 {
     let rep = Report::new("C10", tier);
-    rep.set_rule("(1) lemma: for every receiver state of the C08 closure (1 slot: closure; 2 slots: depth 7, thorough closure) x every lemma packet of the 46-packet alphabet (valid packets and those rejected for bad CRC / unknown id / no storage / unknown mandatory extension / unresolvable re-use / oversize) x every tail (1..4 zero bytes, every alphabet packet, FF*8, extension-like bytes, zero label, one byte): decap(q||t) equals decap(q) in outcome, consumed length = |q| and successor snapshot; (2) 2..=6 zero bytes give Padding consuming all in every state; (3) all frames of <= 3 (thorough 4) packets drawn from two real fragment trains continuing across frames plus complete packets and rejected packets, followed by 0..=5 zero bytes, are walked by consumed lengths and compared with stand-alone decapsulation; (4) every packet of the corpus is checked not to read as padding; (5) frames of 4097..70000 bytes filled greedily by the real encapsulator (encap, and encap_ext for every second PDU; consecutive PDUs share their label, so re-use labels occur) with PDUs around and above the 4095-byte limit (fragments continuing across frames), walked by consumed lengths against a twin receiver fed each packet alone, every PDU delivered once in order. distinct = (packet, outcome)");
+    rep.set_rule("(1) lemma: for every receiver state of the C08 closure (1 slot: closure; 2 slots: depth 7, thorough closure) x every lemma packet of the 46-packet alphabet (valid packets and those rejected for bad CRC / unknown id / no storage / unknown mandatory extension / unresolvable re-use / oversize) x every tail (1..4 zero bytes, every alphabet packet, FF*8, extension-like bytes, zero label, one byte): decap(q||t) equals decap(q) in outcome, consumed length = |q| and successor snapshot; (2) 2..=6 zero bytes give Padding consuming all in every state; (3) all frames of <= 3 (thorough 4) packets drawn from two real fragment trains continuing across frames plus complete packets and rejected packets, followed by 0..=5 zero bytes, are walked by consumed lengths and compared with stand-alone decapsulation; (4) every packet of the corpus is checked not to read as padding; (5) frames of 4097..70000 bytes, and every frame size 24..=64 with short PDUs, filled greedily by the real encapsulator (encap, and encap_ext for every second PDU; consecutive PDUs share their label, so re-use labels occur) with PDUs around and above the 4095-byte limit (fragments continuing across frames), walked by consumed lengths against a twin receiver fed each packet alone, every PDU delivered once in order; (6) every continuation packet the sender emits for PDUs of 0..=24 (thorough 48) bytes at every position and room, in a frame with 0/2/3/6 zero bytes behind it, on a receiver holding the reassembly the position implies. distinct = (packet, outcome)");
     rep.assume("frames longer than 4 packets follow from the lemma by induction on the position (the successor state after each packet is a state of the closure, where the lemma was checked)");
     let mgr = mgr_std();
     for slots in [1usize, 2] {
@@ -114,7 +114,72 @@ pub fn run(tier: Tier) -> i32 {
     }
     end_to_end(&rep, tier);
     large_frames(&rep, tier);
+    continuation_packets(&rep, tier);
     rep.finish(true)
+}
+
+/// (6) every continuation packet the sender can emit for a small PDU (every PDU length, every context position, every
+/// amount of room left in a frame), laid in a frame followed by 0, 2, 3 or 6 zero bytes, on a receiver holding exactly the
+/// reassembly the position implies: same outcome in the frame as alone, own length consumed, the zeros read as padding.
+fn continuation_packets(rep: &Report, tier: Tier) {
+    use crate::refm::crc_ref;
+    let mgr = mgr_std();
+    let maxp = if tier.thorough() { 48usize } else { 24 };
+    (0..=maxp).collect::<Vec<usize>>().par_iter().for_each(|&p| {
+        if rep.over_time() {
+            rep.cap("continuation packets: wall cap");
+            return;
+        }
+        let mut acc = Acc::default();
+        let pd = pdu(p, (p % 4) as u8);
+        let (l, pt, fid) = (L3A, 0x0800u16, 5u8);
+        let total = (p + 2 + l.wire_len()) as u16;
+        let crc = crc_ref(total, pt, &l.bytes(), &pd);
+        let enc = Encapsulator::new(DefaultCrc {});
+        for pos in 0..=p {
+            let mut rxs = RxS::new(2, p.max(1) + 8, &[p.max(1) + 8]);
+            let mut stor = vec![0u8; p.max(1) + 8];
+            stor[..pos].copy_from_slice(&pd[..pos]);
+            rxs.mem.set_ctx(CtxS { label: l, pt, frag_id: fid, total_len: total, pdu_len: pos as u16, from_reuse: false, exts: vec![] }, stor);
+            for b in 0..=p + 12 {
+                let mut buf = vec![0u8; b];
+                let out = do_encap_frag(&enc, &pd, Ctx { id: fid, crc, pos: pos as u16 }, &mut buf);
+                acc.states += 1;
+                acc.calls += 1;
+                let Some(n) = out.len() else { continue };
+                let pkt = buf[..n.min(b)].to_vec();
+                if pkt.len() < 2 {
+                    continue;
+                }
+                let (alone, _) = step_decap(&rxs, &DefaultCrc {}, &mgr, &pkt);
+                for k in [0usize, 2, 3, 6] {
+                    let mut frame = pkt.clone();
+                    frame.extend(std::iter::repeat(0u8).take(k));
+                    let mut d = rxs.build(DefaultCrc {}, mgr.clone());
+                    let inframe = do_decap(&mut d, &frame);
+                    acc.transitions += 2;
+                    acc.compared += 1;
+                    let mut bad: Option<String> = None;
+                    if inframe != alone {
+                        bad = Some(format!("alone -> {}, followed by {} zero bytes -> {}", alone.brief(), k, inframe.brief()));
+                    } else if inframe.consumed() != Some(pkt.len()) {
+                        bad = Some(format!("{} consumes {:?} instead of its own {} bytes", inframe.brief(), inframe.consumed(), pkt.len()));
+                    } else if k >= 2 {
+                        let pad = do_decap(&mut d, &frame[pkt.len()..]);
+                        if pad != (DecapOut::Padding { consumed: k }) {
+                            bad = Some(format!("the {} zero bytes behind it -> {}", k, pad.brief()));
+                        }
+                    }
+                    if let Some(why) = bad {
+                        rep.violation(&format!("C10|continuation-packet|{}|{}", out.class(), alone.class()), (p * 1000 + b) as u64, || (format!("encap_frag(pdu_len={}, pos={}, buffer={}) -> {:?}, packet {}: {}", p, pos, b, out, hex(&pkt), why), json!({"packet": hex(&pkt), "tail": hex(&vec![0u8; k]), "receiver": {"slots": 2, "storage": p.max(1) + 8, "buffers": 1, "contexts": [{"label": l.short(), "pt": pt, "frag_id": fid, "total_len": total, "pdu_len": pos}]}, "call": format!("encap_frag(pdu_len={}, pos={}, buffer={})", p, pos, b)})));
+                        break;
+                    }
+                }
+            }
+        }
+        rep.merge(acc);
+    });
+    rep.part(json!({"part": "continuation packets in frames", "pdu_lengths": format!("0..={}", maxp), "positions": "all", "buffers": "0..=p+12", "zero_bytes_behind": [0, 2, 3, 6]}));
 }
 
 /// (5) frames of BBFrame size and beyond, filled greedily by the real encapsulator with PDUs around and above the
@@ -130,8 +195,25 @@ fn large_frames(rep: &Report, tier: Tier) {
         vec![vec![300, 13000, 100, 40], vec![4090, 4094, 4095, 4096], vec![8200, 1, 4093, 9000], vec![8189, 8190, 8191, 8192], vec![65530, 100, 40]]
     };
     let frame_sizes: Vec<usize> = if tier.thorough() { vec![4097, 4098, 4099, 4100, 4200, 5000, 8100, 8192, 16384, 70000] } else { vec![4097, 4098, 4100, 8100, 70000] };
-    let jobs: Vec<(usize, usize, Lbl)> = (0..pdu_sets.len()).flat_map(|i| frame_sizes.iter().map(move |&f| (i, f))).flat_map(|(i, f)| [L6A, Lbl::Bcast].into_iter().map(move |l| (i, f, l))).collect();
-    jobs.par_iter().for_each(|&(si, fsize, l)| {
+    let mut jobs: Vec<(usize, usize, Lbl, u8)> = (0..pdu_sets.len()).flat_map(|i| frame_sizes.iter().map(move |&f| (i, f))).flat_map(|(i, f)| [L6A, Lbl::Bcast].into_iter().map(move |l| (i, f, l, 0u8))).collect();
+    // small frames: every frame size 24..=64 with short PDUs, so that every way a frame can end (room for a whole packet,
+    // for a payload but not its CRC, for 1..6 leftover bytes while only a CRC is pending ...) occurs
+    let mut pdu_sets = pdu_sets;
+    let small_from = pdu_sets.len();
+    pdu_sets.push(vec![30, 12, 7, 25, 3]);
+    pdu_sets.push(vec![41, 5, 19]);
+    pdu_sets.push(vec![17, 17, 17, 2]);
+    for i in small_from..pdu_sets.len() {
+        for f in 24..=64usize {
+            for l in [L6A, Lbl::Bcast] {
+                // policy 1: a frame starts with the next short PDU (as a complete packet) BEFORE the pending fragmented PDU is
+                // continued, so the continuation is offered whatever is left of the frame
+                jobs.push((i, f, l, 0));
+                jobs.push((i, f, l, 1));
+            }
+        }
+    }
+    jobs.par_iter().for_each(|&(si, fsize, l, policy)| {
         if rep.over_time() {
             rep.cap("large frames: wall cap");
             return;
@@ -139,7 +221,7 @@ fn large_frames(rep: &Report, tier: Tier) {
         let mut acc = Acc::default();
         let pdus: Vec<Vec<u8>> = pdu_sets[si].iter().enumerate().map(|(k, &n)| pdu(n, (k % 4) as u8)).collect();
         let mut enc = Encapsulator::new(DefaultCrc {});
-        let st = 70000usize;
+        let st = if fsize <= 64 { 64usize } else { 70000usize };
         let mut walker = RxS::new(4, st, &[st, st, st]).build(DefaultCrc {}, mgr.clone());
         let mut twin = RxS::new(4, st, &[st, st, st]).build(DefaultCrc {}, mgr.clone());
         let mut delivered: Vec<Vec<u8>> = vec![];
@@ -148,8 +230,8 @@ fn large_frames(rep: &Report, tier: Tier) {
         let mut next_pdu = 0usize;
         let mut bad: Option<String> = None;
         let mut frames = 0usize;
-        let wit = |frames: usize| json!({"pdu_lengths": pdu_sets[si], "frame_size": fsize, "label": l.short(), "frames_built": frames});
-        'outer: while (cur.is_some() || next_pdu < pdus.len()) && frames < 64 {
+        let wit = |frames: usize| json!({"pdu_lengths": pdu_sets[si], "frame_size": fsize, "label": l.short(), "policy": if policy == 1 { "short PDUs first, then the pending continuation" } else { "pending continuation first" }, "frames_built": frames});
+        'outer: while (cur.is_some() || next_pdu < pdus.len()) && frames < 200 {
             // build one frame
             let mut frame = vec![0u8; fsize];
             let mut lens: Vec<usize> = vec![];
@@ -158,6 +240,16 @@ fn large_frames(rep: &Report, tier: Tier) {
                 let room = &mut frame[off..];
                 if room.len() < 2 {
                     break;
+                }
+                let new_first = policy == 1 && cur.is_some() && lens.is_empty() && next_pdu < pdus.len() && pdus[next_pdu].len() <= 12 && 4 + l.wire_len() + pdus[next_pdu].len() <= room.len();
+                if new_first {
+                    if let EncOut::Completed(n) = do_encap(&mut enc, &pdus[next_pdu], 0, 0x0800, l, room) {
+                        acc.calls += 1;
+                        next_pdu += 1;
+                        lens.push(n);
+                        off += n;
+                        continue;
+                    }
                 }
                 let out = match cur {
                     Some((pi, ctx)) => do_encap_frag(&enc, &pdus[pi], ctx, room),
@@ -266,11 +358,17 @@ fn large_frames(rep: &Report, tier: Tier) {
                 }
             }
         }
-        if bad.is_none() && delivered != expected {
+        let (mut dsorted, mut esorted) = (delivered.clone(), expected.clone());
+        if policy == 1 {
+            // with interleaving the delivery order is the order of completion, not of first emission
+            dsorted.sort();
+            esorted.sort();
+        }
+        if bad.is_none() && dsorted != esorted {
             bad = Some(format!("{} PDUs delivered, {} sent, or contents/order differ", delivered.len(), pdus.len()));
         }
         if let Some(b) = bad {
-            rep.violation(&format!("C10|large-frames|{}", if fsize > 4097 { "frame>4097" } else { "frame=4097" }), (si * 100000 + fsize) as u64, || (format!("PDUs of {:?} bytes packed into frames of {} bytes (label {}): {}", pdu_sets[si], fsize, l.short(), b), wit(frames)));
+            rep.violation(&format!("C10|large-frames|{}", if fsize > 4097 { "frame>4097" } else if fsize == 4097 { "frame=4097" } else { "small-frame" }), (si * 100000 + fsize) as u64, || (format!("PDUs of {:?} bytes packed into frames of {} bytes (label {}): {}", pdu_sets[si], fsize, l.short(), b), wit(frames)));
         }
         acc.outcome(&format!("large-frames:{}", if fsize > 4097 { ">4097" } else { "4097" }));
         rep.merge(acc);
